@@ -159,6 +159,48 @@ fn l_negation_plain_strategies() {
     a.infer_new_facts_semi_naive();
     let mut p = build();
     let _ = p.infer_new_facts_with_provenance(shared::provenance::BooleanProvenance);
+    let mut n = build(); n.infer_new_facts_naive();
+    let mut pa = build(); pa.infer_new_facts_semi_naive_parallel();
+    let mut wr = build(); wr.infer_new_facts_semi_naive_with_repairs();
+    println!("PROBE l: naive flies={:?}", facts(&n).into_iter().filter(|f| f.1 == "flies").collect::<Vec<_>>());
+    println!("PROBE l: parallel flies={:?}", facts(&pa).into_iter().filter(|f| f.1 == "flies").collect::<Vec<_>>());
+    println!("PROBE l: with_repairs flies={:?}", facts(&wr).into_iter().filter(|f| f.1 == "flies").collect::<Vec<_>>());
     println!("PROBE l: seminaive flies={:?}", facts(&a).into_iter().filter(|f| f.1 == "flies").collect::<Vec<_>>());
     println!("PROBE l: provenance flies={:?}", facts(&p).into_iter().filter(|f| f.1 == "flies").collect::<Vec<_>>());
+}
+
+#[test]
+fn q_backward_ignores_filters_and_negation() {
+    let mut r = Reasoner::new();
+    r.add_abox_triple("n1", "val", "5");
+    r.add_abox_triple("n2", "val", "50");
+    let val = enc(&r, "val");
+    let big = enc(&r, "big");
+    let yes = enc(&r, "yes");
+    r.add_rule(rule(
+        vec![(v("N"), c(val), v("V"))],
+        vec![],
+        vec![FilterCondition { variable: "V".into(), operator: ">".into(), value: "10".into() }],
+        vec![(v("N"), c(big), c(yes))],
+    ));
+    let res = r.backward_chaining(&(v("X"), c(big), c(yes)));
+    let xs: BTreeSet<String> = res.iter().map(|b| format!("{:?}", resolve_term(&v("X"), b))).collect();
+    println!("PROBE q filter: answers={:?} (n1 id={}, n2 id={})", xs, enc(&r, "n1"), enc(&r, "n2"));
+    let mut f = Reasoner::new();
+    f.add_abox_triple("n1", "val", "5");
+    f.add_abox_triple("n2", "val", "50");
+    let val = enc(&f, "val"); let big = enc(&f, "big"); let yes = enc(&f, "yes");
+    f.add_rule(rule(vec![(v("N"), c(val), v("V"))], vec![], vec![FilterCondition { variable: "V".into(), operator: ">".into(), value: "10".into() }], vec![(v("N"), c(big), c(yes))]));
+    f.infer_new_facts_semi_naive();
+    println!("PROBE q filter: forward big={:?}", facts(&f).into_iter().filter(|t| t.1 == "big").collect::<Vec<_>>());
+
+    let mut g = Reasoner::new();
+    g.add_abox_triple("a", "bird", "yes");
+    g.add_abox_triple("b", "bird", "yes");
+    g.add_abox_triple("b", "penguin", "yes");
+    let bird = enc(&g, "bird"); let peng = enc(&g, "penguin"); let flies = enc(&g, "flies"); let yes = enc(&g, "yes");
+    g.add_rule(rule(vec![(v("X"), c(bird), c(yes))], vec![(v("X"), c(peng), c(yes))], vec![], vec![(v("X"), c(flies), c(yes))]));
+    let res = g.backward_chaining(&(v("Q"), c(flies), c(yes)));
+    let xs: BTreeSet<String> = res.iter().map(|b| format!("{:?}", resolve_term(&v("Q"), b))).collect();
+    println!("PROBE q negation: answers={:?} (a id={}, b id={})", xs, enc(&g, "a"), enc(&g, "b"));
 }
